@@ -1034,7 +1034,7 @@ def gen_spec(env, rng, serial):
         'marks': [rng.choice(['x', 'y', 'scale', 'é', 'quote"\'', 'back\\slash', '0']) for _ in range(rng.randint(1, 5))],
         'evaluation': evaluation, 'data': data, 'helper': rng.random() < 0.5,
         'kind': rng.choice(['zip', 'zip', 'dir']), 'via': rng.choice(['install', 'install', 'posix', 'volatile']),
-        'stale': rng.random() < 0.4,
+        'stale': rng.random() < 0.4, 'namespace': rng.random() < 0.35,
     }
 
 
